@@ -154,9 +154,15 @@ def check(d, root, flist, case, ch=None, public=False):
         return out
     # (4) metamorphic relations
     if ch is not None:
-        m = ch.int(0, 4)
+        m = ch.int(0, 5)
         try:
-            if m == 4:
+            if m == 5:
+                # both clauses at once: a list of roots, one of them with its values (its __type__ too) in another case
+                W = env.Workers.get()
+                got2 = names_of(W.validator().validate([recase_values(d, ch), copy.deepcopy(d)], schema_name=root))
+                got = sorted(got + got)
+                rel = "list of roots, one with re-cased values"
+            elif m == 4:
                 # the documented add_comments option writes the messages into a copy as comments: same verdict,
                 # and the annotated copy still validates to the same verdict (comments are hidden keys)
                 W = env.Workers.get()
